@@ -470,6 +470,11 @@ func filter[K nodeKey, V any](root nodeRef, predicate func(K, V) bool, restore f
 	}
 }
 
+type rangeEntry struct {
+	ref   nodeRef
+	depth int
+}
+
 func rangeScan[K nodeKey, V any, L nodeLeaf[V]](
 	root nodeRef,
 	start, end []byte,
@@ -484,13 +489,15 @@ func rangeScan[K nodeKey, V any, L nodeLeaf[V]](
 	}
 
 	return func(yield func(K, V) bool) {
-		var q []nodeRef
+		// every pending node carries the depth of its own path: siblings must not
+		// inherit the depth reached below an earlier sibling
+		var q []rangeEntry
 
-		depth := 0
-		q = append(q, root)
+		q = append(q, rangeEntry{ref: root})
 		for len(q) != 0 {
-			n := q[len(q)-1]
+			e := q[len(q)-1]
 			q = q[:len(q)-1]
+			n, depth := e.ref, e.depth
 
 			if n.tag == nodeKindLeaf {
 				leaf := (L)(n.pointer)
@@ -520,19 +527,21 @@ func rangeScan[K nodeKey, V any, L nodeLeaf[V]](
 				}
 			}
 
+			childDepth := depth + int(node.prefixLen) + 1
+
 			switch n.tag {
 			case nodeKind4:
 				n4 := (*node4)(n.pointer)
 
 				for i := int(n4.childrenLen) - 1; i >= 0; i-- {
-					q = append(q, n4.children[i])
+					q = append(q, rangeEntry{n4.children[i], childDepth})
 				}
 
 			case nodeKind16:
 				n16 := (*node16)(n.pointer)
 
 				for i := int(n16.childrenLen) - 1; i >= 0; i-- {
-					q = append(q, n16.children[i])
+					q = append(q, rangeEntry{n16.children[i], childDepth})
 				}
 
 			case nodeKind48:
@@ -543,7 +552,7 @@ func rangeScan[K nodeKey, V any, L nodeLeaf[V]](
 					if idx == 0 {
 						continue
 					}
-					q = append(q, n48.children[idx-1])
+					q = append(q, rangeEntry{n48.children[idx-1], childDepth})
 				}
 
 			case nodeKind256:
@@ -553,14 +562,12 @@ func rangeScan[K nodeKey, V any, L nodeLeaf[V]](
 					if n256.children[i].pointer == nil {
 						continue
 					}
-					q = append(q, n256.children[i])
+					q = append(q, rangeEntry{n256.children[i], childDepth})
 				}
 
 			default:
 				panic("shouldn't be possible!")
 			}
-
-			depth += int(node.prefixLen) + 1
 		}
 	}
 }
